@@ -16,8 +16,8 @@
      FailSent      send: client.Send failed -> failRequestsByIDs
      RecvLoad      batchRecvLoop: batched.Load(id) (unknown id = outdated response)
      RecvFinish    batchRecvLoop: deliver unless canceled; batched.Delete
-     StreamFail    batchRecvLoop: Recv failed -> recreateStreamingClient (epoch CAS; only the winner
-                   calls failPendingRequests(forwardedHost)); loop exits if the client is closed
+     StreamFail    batchRecvLoop: Recv failed -> recreateStreamingClient (epoch CAS; winner and loser both
+                   call failPendingRequests(forwardedHost)); loop exits if the client is closed
      Abort         sendBatchRequest's select: ctx.Done / timer / batchConn.closed -> canceled := 1
      Return        sendBatchRequest's select: value or close observed on entry.res
      Close         batchConn.Close / client closed
@@ -200,11 +200,14 @@ Definition step (s : state) (l : label) : option state :=
       | LIdle ep =>
           if closed s then
             Some (mkState (next_id s) (tab s) (ent s) (updl (loops s) h LStopped) (epoch s) (closed s) (outdated s) (alloc s))
-          else if Nat.eqb ep (epoch s) then
-            let '(t', f') := fail_pending h (tab s) (ent s) in
-            Some (mkState (next_id s) t' f' (updl (loops s) h (LIdle (S ep))) (S (epoch s)) (closed s) (outdated s) (alloc s))
           else
-            Some (mkState (next_id s) (tab s) (ent s) (updl (loops s) h (LIdle (epoch s))) (epoch s) (closed s) (outdated s) (alloc s))
+            (* both branches of the epoch CAS call failPendingRequests(forwardedHost) (since fix a827fda); only the
+               winner bumps the epoch (and waits for the connection), the loser refreshes its copy *)
+            let '(t', f') := fail_pending h (tab s) (ent s) in
+            if Nat.eqb ep (epoch s) then
+              Some (mkState (next_id s) t' f' (updl (loops s) h (LIdle (S ep))) (S (epoch s)) (closed s) (outdated s) (alloc s))
+            else
+              Some (mkState (next_id s) t' f' (updl (loops s) h (LIdle (epoch s))) (epoch s) (closed s) (outdated s) (alloc s))
       | _ => None
       end
   | Abort c k =>
@@ -227,6 +230,17 @@ Definition step (s : state) (l : label) : option state :=
   | Close =>
       Some (mkState (next_id s) (tab s) (ent s) (loops s) (epoch s) true (outdated s) (alloc s))
   | Restart => Some s
+  end.
+
+(* regression witness only: the CAS-losing branch as it was BEFORE fix a827fda (stream re-created, epoch copy
+   refreshed, failPendingRequests not called) *)
+Definition streamfail_prefix_loser (s : state) (h : host) : option state :=
+  match loops s h with
+  | LIdle ep =>
+      if closed s then None
+      else if Nat.eqb ep (epoch s) then None
+      else Some (mkState (next_id s) (tab s) (ent s) (updl (loops s) h (LIdle (epoch s))) (epoch s) (closed s) (outdated s) (alloc s))
+  | _ => None
   end.
 
 Fixpoint run (s : state) (ls : list label) : option state :=
